@@ -2,4 +2,4 @@
 From MptV Require Import Base.Mem C12.ReplyModel C12.ReplySpec C12.ConnModel C12.SinModel.
 Require Import ExtrOcamlBasic.
 Extraction "c12_model.ml" id2buf buf2id s_id2buf s_buf2id init sinit run srun mview sview live sin_request
-  minit sinit_c mcrun scrun sin_request2 sin_skip sin_conv sin_create_ok.
+  minit sinit_c mcrun scrun sin_request2 sin_skip sin_conv sin_create_ok reserve_run.
